@@ -794,6 +794,15 @@ func (r *runner) run() (term string, err error) {
 				items = append(items, [2]string{hex.EncodeToString(k), hex.EncodeToString(v)})
 			}
 			extra["items"] = items
+			if jr.Res == "ROk" {
+				var its []string
+				for _, it2 := range items {
+					kb, _ := hex.DecodeString(it2[0])
+					vb, _ := hex.DecodeString(it2[1])
+					its = append(its, fmt.Sprintf("(%s, %s)", coqBytes(kb), coqBytes(vb)))
+				}
+				r.ops = append(r.ops, fmt.Sprintf("(YIter [%s], XR ROk)", strings.Join(its, ";")))
+			}
 		default:
 			return "", fmt.Errorf("op %d: unknown kind %s", i, o.Kind)
 		}
